@@ -289,7 +289,7 @@ prop("C11", "nitrocheck",
                 "fault classes named in the rule.",
      level_note="Process-level crashes inside nitro's own restore goroutines cannot be recovered by the harness: they kill the test process and are reported as a violation "
                 "with the log. Only Go-managed memory is used here (a damaged length makes the loader allocate gigabytes).",
-     timeout_quick=1200, timeout_thorough=7200)
+     timeout_quick=3600, timeout_thorough=14400)
 
 prop("C12", "nitrocheck",
      [dict(name="TestC12Limit", quick=8, thorough=40, thorough_shards=8),
@@ -309,7 +309,7 @@ prop("C12", "nitrocheck",
      level_text="Enumerates the byte budgets and the mutation boundaries of real backups of generated databases.",
      level_note="The file size limit fails writes per file (a full disk fails them globally); crash images model process death (data handed to the kernel survives), not power loss. "
                 "TestC12Limit changes a process-wide limit and therefore runs alone in its process.",
-     timeout_quick=900)
+     timeout_quick=3600)
 
 NOT_APPLICABLE = {}
 
